@@ -3,8 +3,10 @@
 use crate::rng::Rng;
 use crate::tree::{self, GenCfg, Tree};
 use crate::util::{self, Args, Out};
-use cfr::verif::{self, Dump, DumpNode, InfoState, Pin, Site};
-use cfr::{PlayerNum, RegretParams, SolveMethod};
+use cfr::verif::{Dump, DumpNode, InfoState, Pin, Site};
+pub use cfr::verif;
+pub use cfr::PlayerNum;
+use cfr::{RegretParams, SolveMethod};
 use serde_json::{json, Value};
 use std::collections::{BTreeMap, HashMap};
 
@@ -385,7 +387,15 @@ pub fn replay_step(args: &Args) {
                         kinds.push(kind.to_string());
                     }
                     let pre: Vec<f64> = e["pre"].as_array().unwrap().iter().map(util::rat).collect();
-                    let strat_ok = if kind == "softmax" {
+                    // a fragile decision (an exactly zero regret that floating point sees as noise):
+                    // any distribution over the zero entries is as admissible as the fallback
+                    let fragile = e["fragile"].as_bool() == Some(true);
+                    let relaxed = fragile
+                        && got.strat.iter().zip(pre.iter()).all(|(p, r)| *r == 0.0 || *p == 0.0)
+                        && (got.strat.iter().sum::<f64>() - 1.0).abs() < 1e-9;
+                    let strat_ok = if relaxed {
+                        true
+                    } else if kind == "softmax" {
                         vec_close(&got.strat, &softmax(&pre, e_val(&par["w"])), 1e-9)
                     } else {
                         e["next"].as_array().unwrap().iter().any(|cand| vec_close(&got.strat, &ratv(cand), tol))
